@@ -170,6 +170,9 @@ func LoadContracts(e *Engine, ld *Loaded, trustedDir string) ([]FuncTarget, []*L
 			if err != nil {
 				return nil, nil, err
 			}
+			for _, lm := range cf.Lemmas {
+				lm.Pkg = sp.Pkg
+			}
 			lemmas = append(lemmas, cf.Lemmas...)
 			for _, g := range cf.GhostFns {
 				e.GhostFns[g.Name] = g
